@@ -17,7 +17,7 @@
 //     any method call / index / reference / deref / `?` on a hash-typed expression (so `m.remove(&k)`, `m.get(&k).unwrap()`, `m.entry(k).or_insert(..)` stay hash-typed: the
 //     values of a map may be maps again, as in resolve_on_end); identifiers bound by a `let` / `if let` / `while let` /
 //     `match` / `for` pattern from a hash-typed expression; parameters of closures passed to a method of a hash-typed
-//     receiver.  The over-approximation lists some iterations over Vec values of maps; the hand-written classification
+//     receiver; a method call one of whose closure arguments has a hash-typed body (`stack.last().and_then(|k| m.remove(k))`).  The over-approximation lists some iterations over Vec values of maps; the hand-written classification
 //     says so.  It cannot miss an iteration over a HashMap whose type is written somewhere in these files or that is
 //     derived from one inside one function body; a HashMap returned by a call into *another crate / another file outside
 //     the scanned set* and bound without a type annotation would be missed.
@@ -202,7 +202,12 @@ impl<'a> Scan<'a> {
             syn::Expr::Group(g) => self.is_hash(&g.expr),
             syn::Expr::Unary(u) => self.is_hash(&u.expr),
             syn::Expr::Try(t) => self.is_hash(&t.expr),
-            syn::Expr::MethodCall(m) => self.is_hash(&m.receiver) || self.hash_fns.contains(&m.method.to_string()),
+            syn::Expr::MethodCall(m) => {
+                self.is_hash(&m.receiver)
+                    || self.hash_fns.contains(&m.method.to_string())
+                    // a closure argument that returns a hash-typed value (`opt.and_then(|k| map.remove(k))`, `.map(..)`, `.unwrap_or_else(..)`)
+                    || m.args.iter().any(|a| matches!(a, syn::Expr::Closure(c) if self.is_hash(&c.body)))
+            }
             syn::Expr::Index(i) => self.is_hash(&i.expr),
             syn::Expr::Call(c) => {
                 mentions_hash(&c.func)
